@@ -1,1 +1,70 @@
-// harnesses for automerge/src/sync.rs
+// G-SYNCENC (flags part): sync message flags on the wire (child module of automerge::sync).
+// Included by /repo/rust/automerge/src/sync.rs under cfg(kani).
+use super::*;
+
+const ALL: [u8; 3] = [MessageFlags::SYNC_RESET, MessageFlags::READ_ONLY, MessageFlags::SUPPORTS_SYNC_RESET];
+
+/// Every subset of the 7 flag bits survives encode -> length-prefixed section -> parse_bytes, the
+/// legacy 0x02 byte in front contributes nothing, and the three named flags are independent.
+#[kani::proof]
+#[kani::unwind(6)]
+fn flags_encode_parse_roundtrip() {
+    let bits: u8 = kani::any();
+    kani::assume(bits < 0x80);
+    let mut f = MessageFlags::new();
+    assert!(f.0 == 0);
+    f.set(bits);
+    assert!(f.0 == bits);
+    let mut out = Vec::new();
+    f.encode(&mut out);
+    assert!(out.len() == 3);
+    assert!(out[0] == 2 && out[1] == 0x02 && out[2] == (0x80 | bits));
+    // the section is read back the way Message::parse does it
+    let input = parse::Input::new(&out);
+    let (rest, raw) = match parse::length_prefixed_bytes::<ReadMessageError>(input) {
+        Ok(x) => x,
+        Err(_) => panic!("flags section must parse"),
+    };
+    assert!(rest.is_empty());
+    assert!(raw.len() == 2);
+    let g = MessageFlags::parse_bytes(raw);
+    assert!(g.0 == bits);
+    assert!(g == f);
+    let mut i = 0;
+    while i < 3 {
+        assert_eq!(g.contains(ALL[i]), bits & ALL[i] != 0);
+        i += 1;
+    }
+    kani::cover!(g.contains(MessageFlags::READ_ONLY) && !g.contains(MessageFlags::SYNC_RESET));
+    kani::cover!(bits == 0);
+    std::mem::forget(out);
+}
+
+/// parse_bytes over EVERY 3-byte flags section: total; the result is the union of the low 7 bits
+/// of the marker bytes (high bit set); legacy bytes (high bit clear) never set a flag.
+#[kani::proof]
+#[kani::unwind(6)]
+fn flags_parse_any_section_len3() {
+    let b: [u8; 3] = kani::any();
+    let g = MessageFlags::parse_bytes(&b);
+    let mut exp = 0u8;
+    let mut i = 0;
+    while i < 3 {
+        if b[i] >= 0x80 {
+            exp |= b[i] & 0x7f;
+        }
+        i += 1;
+    }
+    assert!(g.0 == exp);
+    assert!(g.0 < 0x80);
+    let mut i = 0;
+    while i < 3 {
+        assert_eq!(g.contains(ALL[i]), exp & ALL[i] != 0);
+        i += 1;
+    }
+    if b[0] < 0x80 && b[1] < 0x80 && b[2] < 0x80 {
+        assert!(g == MessageFlags::new());
+    }
+    kani::cover!(b[0] < 0x80 && b[1] >= 0x80 && g.contains(MessageFlags::READ_ONLY));
+    kani::cover!(g == MessageFlags::new() && b[0] == 0x02);
+}
